@@ -413,3 +413,37 @@ twin('C13', 'store-objects-unlink', CONNPY, 'Connection._store_objects',
                     except OSError:
                         pass
                     raise''')
+
+# ---------------------------------------------------------------- C19
+FSIPY = 'ZODB/fsIndex.py'
+breaker('C19', 'minkey-suffix-on-foreign-bucket', 'C19.R1', FSIPY,
+        'fsIndex.minKey',
+        'if key is None or smallest_prefix != key[:6]:', 'if key is None:')
+breaker('C19', 'maxkey-suffix-on-foreign-bucket', 'C19.R1', FSIPY,
+        'fsIndex.maxKey',
+        'if key is None or biggest_prefix != key[:6]:', 'if key is None:')
+breaker('C19', 'delitem-leaves-empty-bucket', 'C19.R2', FSIPY,
+        'fsIndex.__delitem__',
+        '''        if not tree:
+            del self._data[treekey]
+''', '')
+breaker('C19', 'save-position-last', 'C19.R3', FSIPY, 'fsIndex.save',
+        '''            pickler.dump(pos)
+            for k, v in self._data.items():
+                pickler.dump((k, v.toString()))
+            pickler.dump(None)''',
+        '''            for k, v in self._data.items():
+                pickler.dump((k, v.toString()))
+            pickler.dump(None)
+            pickler.dump(pos)''')
+breaker('C19', 'save-no-terminator', 'C19.R3', FSIPY, 'fsIndex.save',
+        '''            pickler.dump(None)
+''', '')
+breaker('C19', 'get-split-5', 'C19.R4', FSIPY, 'fsIndex.get',
+        'tree = self._data.get(key[:6], default)',
+        'tree = self._data.get(key[:5], default)')
+breaker('C19', 'num2str-7-bytes', 'C19.R4', FSIPY, 'num2str',
+        'return struct.pack(">Q", n)[2:]', 'return struct.pack(">Q", n)[1:]')
+twin('C19', 'minkey-operands-swapped', FSIPY, 'fsIndex.minKey',
+     'if key is None or smallest_prefix != key[:6]:',
+     'if key is None or not (key[:6] == smallest_prefix):')
